@@ -72,7 +72,7 @@ Definition check_history (c : cfg) (root : xel) (ops : list op) (obs_steps : lis
                end) steps obs_steps in
   let saved := et_write c final in
   let b3 := lstr_eqb (fst (doc_read saved)) obs_reload in
-  let b4 := olstr_eqb (option_map fst (svg2paths_read saved)) obs_svg2paths in
+  let b4 := olstr_eqb (option_map fst (svg2paths_read c saved)) obs_svg2paths in
   let b5 := olstr_eqb (option_map fst (sax_read c saved)) obs_sax in
   ((if b1 then 0 else 1) + (if b2 then 0 else 2) + (if b3 then 0 else 4)
    + (if b4 then 0 else 8) + (if b5 then 0 else 16))%nat.
@@ -95,7 +95,7 @@ Definition check_wsvg (c : cfg) (ds : list string) (attrs : list dict) (svgattrs
            (o_s2p : option (list string * list dict)) (o_svg : option dict)
            (o_doc : list string * list dict) (o_sax : option (list string * list dict)) : nat :=
   let f := wsvg_file ds attrs svgattrs size in
-  let b1 := match svg2paths_read f, o_s2p with
+  let b1 := match svg2paths_read c f, o_s2p with
             | Some (d, a), Some (d', a') => lstr_eqb d d' && ldict_eqb a a'
             | None, None => true
             | _, _ => false
@@ -107,7 +107,7 @@ Definition check_wsvg (c : cfg) (ds : list string) (attrs : list dict) (svgattrs
             | _, _ => false
             end in
   (* svg2paths2 raises before it gets to the svg attributes when a path has no d *)
-  let b4 := match (match svg2paths_read f with Some _ => svg2paths_svg_attributes f | None => None end), o_svg with
+  let b4 := match (match svg2paths_read c f with Some _ => svg2paths_svg_attributes f | None => None end), o_svg with
             | Some a, Some a' => dict_eqb a a'
             | None, None => true
             | _, _ => false
